@@ -220,6 +220,24 @@ def firstLogDiff (a b : List LogItem) : String :=
     | _, [], [] => "same"
   go 0 a.reverse b.reverse
 
+/-- canonical form of a write/flush log for the `writes` projection: chronological, empty writes dropped, consecutive
+    writes to contiguous offsets merged (so writing a record field by field or in one call is the same observation);
+    the order of writes, their bytes and their position relative to the flushes are kept -/
+def canonLog (log : List LogItem) : List LogItem :=
+  let close (off : Nat) (chunks : List (List Nat)) (acc : List LogItem) : List LogItem :=
+    LogItem.write off chunks.reverse.flatten :: acc
+  let rec go : List LogItem → Option (Nat × Nat × List (List Nat)) → List LogItem → List LogItem
+    | [], none, acc => acc.reverse
+    | [], some (off, _, ch), acc => (close off ch acc).reverse
+    | .flush :: r, none, acc => go r none (.flush :: acc)
+    | .flush :: r, some (off, _, ch), acc => go r none (.flush :: close off ch acc)
+    | .write o bs :: r, none, acc => if bs.isEmpty then go r none acc else go r (some (o, o + bs.length, [bs])) acc
+    | .write o bs :: r, some (off, e, ch), acc =>
+      if bs.isEmpty then go r (some (off, e, ch)) acc
+      else if o = e then go r (some (off, e + bs.length, bs :: ch)) acc
+      else go r (some (o, o + bs.length, [bs])) (close off ch acc)
+  go log.reverse none []
+
 /-- compare one completed operation; returns the mismatch description (kind, detail) if any -/
 def compareOp (cfg : Config) (model : ApiRes) (mdev : Dev) (mimgAfter implAfter : Img) (io : ImplOp) :
     Option (String × String) :=
@@ -242,7 +260,9 @@ def compareOp (cfg : Config) (model : ApiRes) (mdev : Dev) (mimgAfter implAfter 
           if mimgAfter.getByte (off + k) ≠ implAfter.getByte (off + k) then some (off + k) else none
     if lvl ≥ 1 ∧ imgDiff.isSome then
       some ("image", s!"first differing byte at {imgDiff.getD 0}: model={mimgAfter.getByte (imgDiff.getD 0)} impl={implAfter.getByte (imgDiff.getD 0)}; log {firstLogDiff mdev.log io.log}")
-    else if lvl ≥ 2 ∧ !sameLog then some ("writes", firstLogDiff mdev.log io.log)
+    else if lvl ≥ 3 ∧ !sameLog then some ("writes", firstLogDiff mdev.log io.log)
+    else if lvl = 2 ∧ !sameLog ∧ canonLog mdev.log ≠ canonLog io.log then
+      some ("writes", firstLogDiff (canonLog mdev.log).reverse (canonLog io.log).reverse)
     else if lvl ≥ 3 then
       let mc := [mdev.reads, mdev.writes, mdev.seeks, mdev.flushes, mdev.callsInDrop]
       match io.counts with
